@@ -37,7 +37,7 @@ pub fn run(ctx: &Ctx) {
     let k2 = lattice_le(0, free, 2);
     let k3 = lattice_le(0, free, 3);
     let mut b = vec![];
-    if !thorough {
+    {
         b.push(Block::new(Universe::new("U_ab3{a,b}", &["a", "b"], 3, 0, true), vec![Cfg::new(0), Cfg::new(X), Cfg::new(X | NA | NE), Cfg::new(R | X), Cfg::new(G | X)], "{}, x, x+na+ne, r+x, g+x"));
         b.push(Block::new(Universe::new("U_adv(A_sgr)", A_SGR, 2, 2, true), k2.clone(), "Lambda<=2"));
         b.push(Block::new(Universe::new("U_adv(A_meta)", A_META, 2, 2, true), k1.clone(), "Lambda<=1"));
@@ -51,7 +51,8 @@ pub fn run(ctx: &Ctx) {
         b.push(Block::new(u_kind_triples(), vec![Cfg::new(0), Cfg::new(X), Cfg::new(R | X | NE), Cfg::new(E | U)], "{}, x, r+x+ne, e+u"));
         b.push(Block::new(u_many(30), k1.clone(), "Lambda<=1"));
         b.push(Block::new(u_nested_rep(), vec![Cfg::new(R), Cfg::new(R | X), Cfg::new(R | G)], "r, r+x, r+g"));
-    } else {
+    }
+    if thorough {
         let rx = lattice_le(R | X, free, 2);
         b.push(Block::new(crate::props::c05::u_rep_single(&["a", "b"], 9), rx.clone(), "r+x + Lambda<=2"));
         b.push(Block::new(crate::props::c05::u_rep_single(&["a", "\u{1f4a9}", "("], 6), rx.clone(), "r+x + Lambda<=2"));
